@@ -1,23 +1,26 @@
 #!/bin/bash
 # usage: refcheck.sh <patch.diff> [props...]   (default: all 19)
-# Applies a behaviour-preserving refactoring to /repo, runs the quick checks (8 in parallel, pinned binary,
-# scratch evidence directory), reverts; any check that exits non-zero is a false alarm of that check.
+# Applies a behaviour-preserving refactoring in a scratch worktree of /repo HEAD ($REFCHECK_WT, created on demand and
+# reused), runs the quick checks (8 in parallel, pinned binary, scratch evidence directory) and reverts; any check that
+# exits non-zero is a false alarm of that check. /repo itself is never touched.
 P=$1; shift
 PROPS="$@"; [ -z "$PROPS" ] && PROPS="C01 C02 C03 C04 C05 C06 C07 C08 C09 C10 C11 C12 C13 C14 C15 C16 C17 C18 C19"
-cd /verif
 BIN=${REFCHECK_BIN:-/verif/bin/verifcheck}
+WT=${REFCHECK_WT:-/tmp/wt-refcheck}
 SV=/tmp/refcheck-verif; mkdir -p $SV/evidence $SV/out; cp /verif/known_findings.json $SV/
 export GOFLAGS=-mod=mod GOPROXY=off GOSUMDB=off GOTOOLCHAIN=local; unset GOWORK
-git -C /repo apply --check "$P" 2>/dev/null || { echo "PATCH-DOES-NOT-APPLY $P"; exit 3; }
-git -C /repo apply "$P"
+[ -d $WT ] || git -C /repo worktree add -q --detach $WT HEAD || exit 2
+git -C $WT checkout -q -- .; git -C $WT clean -fdq
+# refactorings were written against an older commit: a patch that no longer applies is reported, not counted
+git -C $WT apply --check "$P" 2>/dev/null || { echo "PATCH-DOES-NOT-APPLY $P"; exit 3; }
+git -C $WT apply "$P"
 rm -f $SV/out/*
-echo $PROPS | tr ' ' '\n' | xargs -P 8 -I{} sh -c "$BIN -property {} -tier quick -repo /repo -verif $SV > $SV/out/{}.log 2>&1; echo \$? > $SV/out/{}.rc"
+echo $PROPS | tr ' ' '\n' | xargs -P 8 -I{} sh -c "$BIN -property {} -tier quick -repo $WT -verif $SV > $SV/out/{}.log 2>&1; echo \$? > $SV/out/{}.rc"
 bad=0
 for p in $PROPS; do
   rc=$(cat $SV/out/$p.rc 2>/dev/null || echo 9)
   if [ "$rc" != 0 ]; then bad=1; echo "ALARM $p on $P"; grep "rule=" $SV/out/$p.log | cut -c1-400 | head -4; fi
 done
-git -C /repo checkout -- .
-git -C /repo clean -fdq
+git -C $WT checkout -q -- .; git -C $WT clean -fdq
 [ $bad -eq 0 ] && echo "SILENT $P"
 exit $bad
